@@ -689,11 +689,11 @@ def _pretags(c):
 
 def subchecks(tier):
     subs = [
-        Sub("nucleotide", body, strategy=nucleotide_cases, quick=1600, thorough=40000, pretags=_pretags),
-        Sub("general", body, strategy=general_cases, quick=1600, thorough=40000, pretags=_pretags),
-        Sub("single_matrix", body, strategy=single_matrix_cases, quick=200, thorough=4000, pretags=_pretags),
-        Sub("empirical", body, strategy=empirical_cases, quick=100, thorough=1500, pretags=_pretags),
-        Sub("codon", body, strategy=codon_cases, quick=300, thorough=4000, pretags=_pretags),
+        Sub("nucleotide", body, strategy=nucleotide_cases, quick=1200, thorough=30000, pretags=_pretags),
+        Sub("general", body, strategy=general_cases, quick=1200, thorough=30000, pretags=_pretags),
+        Sub("single_matrix", body, strategy=single_matrix_cases, quick=160, thorough=3000, pretags=_pretags),
+        Sub("empirical", body, strategy=empirical_cases, quick=80, thorough=1200, pretags=_pretags),
+        Sub("codon", body, strategy=codon_cases, quick=240, thorough=3000, pretags=_pretags),
         Sub("codes", body, enumerate=codes_enum, exhaustive=True, pretags=_pretags),
         Sub("unit", body, enumerate=unit_enum, exhaustive=True, pretags=_pretags),
     ]
